@@ -370,3 +370,15 @@ package forwarder
 //@ ensures forall k string :: k != "User-Agent" ==> (k in req.Header) == old(k in req.Header) && req.Header[k] == old(req.Header[k])
 //@ ensures old("User-Agent" in req.Header) ==> ("User-Agent" in req.Header) && req.Header["User-Agent"] == old(req.Header["User-Agent"])
 //@ ensures !old("User-Agent" in req.Header) ==> ("User-Agent" in req.Header) && len(req.Header["User-Agent"]) == 1 && req.Header["User-Agent"][0] == ""
+
+// ---- secrets in diagnostics (C19) ----
+
+// RedactHostPortUser: user name, host and port stay visible, the password is
+// replaced by a fixed placeholder: nothing secret reaches the result.
+//@ axiom !secret("%s@%s:%s") && !secret("%s:xxxxx@%s:%s") && !secret("*")
+//@ func RedactHostPortUser
+//@ property C19
+//@ requires hpu != nil ==> !secret(hpu.Host) && !secret(hpu.Port)
+//@ pure
+//@ ensures !secret(result)
+//@ ensures hpu == nil ==> result == ""
